@@ -247,7 +247,7 @@ func (e *c05Env) routeGnuTar(tree *c05Node, srcDir string, src []*c05Ent, catar 
 	if o, err := e.cli(120*time.Second, "untar", "--output-format", "gnu-tar", catar, out); err != nil {
 		c.Detail = short(o)
 		cl := "gnutar/error"
-		if hasX && strings.Contains(o, "Xattrs") {
+		if hasX && (strings.Contains(o, "Xattrs") || strings.Contains(o, "PAX record")) {
 			cl = "gnutar/xattrs-unsupported"
 		}
 		e.r.Fail("predicate", cl, fmt.Sprintf("desync untar --output-format gnu-tar fails: %s", short(o)), c)
